@@ -70,12 +70,12 @@ def part_struct(hids, rng, base=0):
     return a
 
 
-def write_case(root, slabs, rng, ranks, base=0):
+def write_case(root, slabs, rng, ranks, base=0, zdir='z0.500'):
     import asdf
     import h5py
     shutil.rmtree(root, ignore_errors=True)
-    sub = os.path.join(root, 'subsample', SIM, 'z0.500')
-    hi = os.path.join(root, 'sim', SIM, 'halos', 'z0.500', 'halo_info')
+    sub = os.path.join(root, 'subsample', SIM, zdir)
+    hi = os.path.join(root, 'sim', SIM, 'halos', zdir, 'halo_info')
     os.makedirs(sub)
     os.makedirs(hi)
     parts_all = []
@@ -135,11 +135,14 @@ def run(chk):
         flags = [(False, False, False, False), (True, True, True, False), (True, False, False, True), (False, True, True, True)][ci % 4]
         want_AB, want_shear, want_ranks, want_expvel = flags
         base = ((1 << 60) + 1) if ci % 3 == 1 else 0            # ids beyond 2**53 are not representable in float64
-        parts_all = write_case(root, slabs, rng, want_ranks, base)
-        sim_params = dict(sim_name=SIM, sim_dir=os.path.join(root, 'sim'), subsample_dir=os.path.join(root, 'subsample'), output_dir=os.path.join(root, 'out'), z_mock=0.5, force_mt=True)
+        # every fifth arrangement is staged at a SECONDARY redshift (halo outputs only: the particle files are not read there)
+        secondary = (ci % 5 == 2)
+        zm, zd_ = (0.575, 'z0.575') if secondary else (0.5, 'z0.500')
+        parts_all = write_case(root, slabs, rng, want_ranks, base, zdir=zd_)
+        sim_params = dict(sim_name=SIM, sim_dir=os.path.join(root, 'sim'), subsample_dir=os.path.join(root, 'subsample'), output_dir=os.path.join(root, 'out'), z_mock=zm, force_mt=True)
         HOD_params = dict(tracer_flags=dict(LRG=True, ELG=False, QSO=False), LRG_params={}, want_ranks=want_ranks, want_AB=want_AB, want_shear=want_shear,
                           want_expvel=want_expvel, want_rsd=True)
-        desc = f'slab files with halo ids {"2**60+1+" if base else ""}{slabs} flags AB={want_AB} shear={want_shear} ranks={want_ranks} expvel={want_expvel}'
+        desc = f'{"secondary-redshift " if secondary else ""}slab files with halo ids {"2**60+1+" if base else ""}{slabs} flags AB={want_AB} shear={want_shear} ranks={want_ranks} expvel={want_expvel}'
         payload = dict(slabs=slabs, flags=list(flags), base=int(base))
         try:
             with warnings.catch_warnings():
@@ -172,6 +175,8 @@ def run(chk):
             if not np.allclose(got, np.asarray(srt, dtype=np.float64), rtol=1e-9, atol=1e-9):
                 chk.violation(f'misaligned-{name}-{order}', f'{desc}: rows of {name} describe halos {np.rint(got).astype(int).tolist()} while hid is {srt}', payload)
         # particles: host index points to the halo whose id the particle records
+        if secondary:
+            continue
         phid = np.asarray(pd['phid']).astype(np.int64)
         pinds = np.asarray(pd['pinds']).astype(np.int64)
         want_phid = [i for hs in parts_all for i in hs]
